@@ -546,4 +546,21 @@ def build_class_index():
                         bases.append(b.attr)
                 methods = {m.name: m for m in st.body if isinstance(m, ast.FunctionDef)}
                 classes[st.name] = {"file": fn, "bases": bases, "methods": methods, "node": st}
+    # cdef classes of the .pyx modules: names, bases and method names only (their methods are reached through contracts)
+    for fn in sorted(os.listdir(SRC)):
+        if not fn.endswith(".pyx"):
+            continue
+        try:
+            _, tree = pyx_tree(fn)
+        except Exception:
+            continue
+        for st in (getattr(tree.body, "stats", None) or [tree.body]):
+            if type(st).__name__ == "CClassDefNode":
+                bases = [str(getattr(b, "name", "")) for b in (st.bases.args if getattr(st, "bases", None) is not None else [])]
+                methods = {}
+                for m in getattr(st.body, "stats", []):
+                    if type(m).__name__ == "DefNode":
+                        methods[str(m.name)] = None
+                classes.setdefault(str(st.class_name), {"file": fn, "bases": [b for b in bases if b], "methods": methods,
+                                                        "node": ast.ClassDef(name=str(st.class_name), bases=[], keywords=[], body=[], decorator_list=[])})
     return classes
